@@ -37,11 +37,16 @@ DESIGN_REF = "DESIGN.md section 6, C06"
 EXEC = "arn:aws:states:local:0123456789:execution:m:e0"
 FUNCS = {"echo": ["echo"], "wrap": ["wrap"], "boom": ["fail", "Boom"], "bang": ["fail", "Bang"], "slow3": ["slow", 3], "sib": ["wrap"], "sibslow": ["slow", 2],
          "flaky": ["flaky", ["Flaky"]], "failodd": ["fail_if", "i", 1], "failall": ["fail", "Boom"],
-         "slowboom": ["seq", [["err", "Boom", "late", {"latency": 2}]]]}
+         "slowboom": ["seq", [["err", "Boom", "late", {"latency": 2}]]], "inner": ["fail", "Inner.Err"]}
 
 
 def sibling_body(rng, names, kind=None):
-    kind = kind or rng.choice(["task", "chain", "wait", "slow", "nested", "instant"])
+    kind = kind or rng.choice(["task", "chain", "wait", "slow", "nested", "instant", "caught", "caught"])
+    if kind == "caught":
+        # a sibling whose own Task error was caught INSIDE the branch and which is now busy in its handler (a slow Task) when another branch fails
+        first, handler = names(), names()
+        return {"StartAt": first, "States": {first: dict(F.T("inner"), Catch=[{"ErrorEquals": ["Inner.Err"], "ResultPath": "$.caught", "Next": handler}], End=True),
+                                             handler: dict(F.T("sibslow"), End=True)}}
     if kind == "task":
         return F.chain([(names(), F.T("sib"))])
     if kind == "chain":
